@@ -26,7 +26,13 @@ type pki struct {
 	peers  map[string]*gotls.Certificate
 	ups    map[string]*gotls.Certificate
 	serial int64
+	// the latest NotAfter of the short-lived certificates issued so far
+	lastShort time.Time
 }
+
+// shortLife is the validity left to a short-lived certificate when it is issued. NotAfter has a resolution of one
+// second (it is truncated), so the certificate is valid for another 1-2 s: long enough for the handshake that follows.
+const shortLife = 2 * time.Second
 
 type authority struct {
 	cert *x509.Certificate
@@ -115,6 +121,71 @@ func (p *pki) clientCert(issuer string, expired bool) *gotls.Certificate {
 	}
 	der, key := p.issue(issuer, t)
 	return &gotls.Certificate{Certificate: [][]byte{der}, PrivateKey: key}
+}
+
+// shortNotAfter is the end of validity of a short-lived certificate issued now, and remembers it for waitExpired.
+func (p *pki) shortNotAfter() time.Time {
+	na := time.Now().Add(shortLife).Truncate(time.Second)
+	if na.After(p.lastShort) {
+		p.lastShort = na
+	}
+	return na
+}
+
+// shortClient issues a client certificate of the CA that is valid now and runs out at the returned time.
+func (p *pki) shortClient(issuer string) (*gotls.Certificate, time.Time) {
+	p.mu.Lock()
+	defer p.mu.Unlock()
+	na := p.shortNotAfter()
+	t := &x509.Certificate{SerialNumber: p.nextSerial(), Subject: pkix.Name{CommonName: "short-lived client", Organization: []string{"peer"}},
+		NotBefore: time.Now().Add(-time.Hour), NotAfter: na,
+		KeyUsage: x509.KeyUsageDigitalSignature, ExtKeyUsage: []x509.ExtKeyUsage{x509.ExtKeyUsageClientAuth}}
+	der, key := p.issue(issuer, t)
+	return &gotls.Certificate{Certificate: [][]byte{der}, PrivateKey: key}, na
+}
+
+// shortUpstream issues a server certificate for a stock upstream that is valid now and runs out at the returned time.
+func (p *pki) shortUpstream(issuer string, names []string) (*gotls.Certificate, time.Time) {
+	p.mu.Lock()
+	defer p.mu.Unlock()
+	na := p.shortNotAfter()
+	t := &x509.Certificate{SerialNumber: p.nextSerial(), Subject: pkix.Name{CommonName: "short-lived upstream", Organization: []string{"upstream"}},
+		DNSNames: names, NotBefore: time.Now().Add(-time.Hour), NotAfter: na,
+		KeyUsage: x509.KeyUsageDigitalSignature, ExtKeyUsage: []x509.ExtKeyUsage{x509.ExtKeyUsageServerAuth}}
+	if issuer == "self" {
+		issuer = ""
+	}
+	der, key := p.issue(issuer, t)
+	return &gotls.Certificate{Certificate: [][]byte{der}, PrivateKey: key}, na
+}
+
+// waitExpired sleeps until every short-lived certificate issued so far has run out; it returns how long it slept.
+func (p *pki) waitExpired() time.Duration {
+	p.mu.Lock()
+	last := p.lastShort
+	p.mu.Unlock()
+	if last.IsZero() {
+		return 0
+	}
+	d := time.Until(last.Add(30 * time.Millisecond))
+	if d > 0 {
+		time.Sleep(d)
+		return d
+	}
+	return 0
+}
+
+// lateness says what the clock said about a certificate running out at notAfter during [t0, t1]: "no" it was valid
+// throughout (x509 takes a certificate as expired when now is AFTER NotAfter), "yes" it had run out before, "edge"
+// otherwise. A zero notAfter: the certificate does not run out during the run.
+func lateness(notAfter, t0, t1 time.Time) string {
+	switch {
+	case notAfter.IsZero() || !t1.After(notAfter):
+		return "no"
+	case t0.After(notAfter):
+		return "yes"
+	}
+	return "edge"
 }
 
 func (p *pki) peer(kind string) *gotls.Certificate {
